@@ -17,6 +17,7 @@ function p.pre(frame) return frame:preprocess(PREBODY) end
 function p.tpl(frame) return frame:expandTemplate{title = "T1", args = {"e"}} end
 function p.loop(frame) while true do end end
 function p.pyx(frame) return frame:expandTemplate{title = 5, args = {}} end
+function p.ext(frame) return frame:extensionTag("nowiki", "x") .. frame:extensionTag("span", "y") .. frame:extensionTag{name = "nowiki", content = "z"} end
 function p.pcx(frame) pcall(frame.expandTemplate, frame, {title = 5, args = {}}) return "K" end
 return p
 """
